@@ -138,7 +138,7 @@ func websocketRejections(meta *gen.Meta) int {
 			// the next operation goes out at once (a read that times out would end the gorilla connection): frames arrive
 			// in order, so everything about r has been seen - and every hook it could reach has run - once ok completes
 			send(fmt.Sprintf(`{"type":%q,"id":"ok","payload":{"query":"query Fine { a }","operationName":"Fine"}}`, start))
-			read(func() bool { return has("ok", "complete") }, 3*time.Second)
+			read(func() bool { return has("ok", "complete") }, 10*time.Second)
 			mu.Lock()
 			var seenAfterRefusal []string
 			for _, h := range seen {
